@@ -29,7 +29,8 @@ func TestMain(m *testing.M) {
 			"configuration, through lexer, parser and evaluator) and by the harness's reference evaluator (package ref: own scoping model, Go int64 arithmetic, own value order and printed form); oracle: the printed " +
 			"text, the final value (structure and type, exact float bits) and error / no error are identical. Families: typed programs (functions, closures, recursion, variadics, all loop forms with " +
 			"break/continue/return, = vs :=, ++/--, indexing, slicing, containers around the small/large thresholds, error()/catch()), operator soups (every infix/prefix operator nested both ways so that precedence " +
-			"and associativity decide the value), scoping scenarios, index/slice grids. Non-trivial: the program printed something or produced a non-nil value AND exercised an interaction (a call, a loop exit, an " +
+			"and associativity decide the value), scoping scenarios, index/slice grids, repeated variadic calls (a few functions with a \"..\" parameter called several times in one program with argument lists that differ " +
+			"by one level of array wrapping - X, [X], [[X]], X[0], X's elements one by one - so that a spread trailing array and the same value passed whole are told apart whatever was called before). Non-trivial: the program printed something or produced a non-nil value AND exercised an interaction (a call, a loop exit, an " +
 			"outer-scope read or write, a caught error, nested operators); distinct by program text.",
 		Assumptions: []string{
 			"the wording of interpreter-made error messages is not compared (a wildcard stands for it wherever it reaches the output through catch())",
